@@ -4,7 +4,12 @@ Blocks are connected with streams. A block can have zero or more input
 streams, and write to zero or more output streams.
 */
 use std::collections::VecDeque;
+#[cfg(not(feature = "verif"))]
 use std::sync::{Arc, Condvar, Mutex};
+#[cfg(feature = "verif")]
+use std::sync::Arc;
+#[cfg(feature = "verif")]
+use crate::vsync::{Condvar, Mutex};
 
 use crate::circular_buffer;
 use crate::{Error, Float, Len, Result};
@@ -97,6 +102,12 @@ pub trait StreamWait {
 
     #[must_use]
     fn closed(&self) -> bool;
+
+    /// Identity of the underlying stream. Same for both ends.
+    #[cfg(feature = "verif")]
+    fn verif_id(&self) -> usize {
+        0
+    }
 }
 impl<T: Copy> StreamWait for ReadStream<T> {
     fn wait(&self, need: usize) -> bool {
@@ -105,6 +116,10 @@ impl<T: Copy> StreamWait for ReadStream<T> {
     fn closed(&self) -> bool {
         self.refcount() == 1
     }
+    #[cfg(feature = "verif")]
+    fn verif_id(&self) -> usize {
+        self.circ.verif_id()
+    }
 }
 impl<T: Copy> StreamWait for WriteStream<T> {
     fn wait(&self, need: usize) -> bool {
@@ -112,6 +127,10 @@ impl<T: Copy> StreamWait for WriteStream<T> {
     }
     fn closed(&self) -> bool {
         self.refcount() == 1
+    }
+    #[cfg(feature = "verif")]
+    fn verif_id(&self) -> usize {
+        self.circ.verif_id()
     }
 }
 
@@ -250,7 +269,24 @@ impl<T: Copy> WriteStream<T> {
 /// Basically anything that GNU Radio would *not* call a message port.
 #[must_use]
 pub fn new_stream<T>() -> (WriteStream<T>, ReadStream<T>) {
+    #[cfg(feature = "verif")]
+    if true {
+        return new_stream_verif();
+    }
     let circ = Arc::new(circular_buffer::Buffer::new(DEFAULT_STREAM_SIZE).unwrap());
+    (WriteStream { circ: circ.clone() }, ReadStream { circ })
+}
+
+/// Create a stream as directed by the verification plan.
+///
+/// The stream can be small, and can have seen traffic already: `offset`
+/// samples produced and consumed, and `prefill` samples still in it. Done using
+/// the same buffer API that any block would use.
+#[cfg(feature = "verif")]
+fn new_stream_verif<T>() -> (WriteStream<T>, ReadStream<T>) {
+    let spec = crate::verif::next_stream_spec(DEFAULT_STREAM_SIZE);
+    let circ = Arc::new(circular_buffer::Buffer::new(spec.size).unwrap());
+    circ.verif_preposition(spec.offset, spec.prefill);
     (WriteStream { circ: circ.clone() }, ReadStream { circ })
 }
 
@@ -274,6 +310,10 @@ impl<T> StreamWait for NCReadStream<T> {
     fn closed(&self) -> bool {
         Arc::strong_count(&self.q) == 1
     }
+    #[cfg(feature = "verif")]
+    fn verif_id(&self) -> usize {
+        Arc::as_ptr(&self.q) as *const u8 as usize
+    }
 }
 
 impl<T> StreamWait for NCWriteStream<T> {
@@ -284,6 +324,10 @@ impl<T> StreamWait for NCWriteStream<T> {
     }
     fn closed(&self) -> bool {
         Arc::strong_count(&self.q) == 1
+    }
+    #[cfg(feature = "verif")]
+    fn verif_id(&self) -> usize {
+        Arc::as_ptr(&self.q) as *const u8 as usize
     }
 }
 
@@ -310,6 +354,8 @@ impl<T> NCReadStream<T> {
         let (lock, cv) = &*self.q;
         // TODO: attach tags.
         let ret = lock.lock().unwrap().pop_front().map(|v| (v, Vec::new()));
+        #[cfg(feature = "verif")]
+        crate::verif::add_activity(ret.is_some() as usize);
         cv.notify_all();
         ret
     }
@@ -334,6 +380,8 @@ impl<T> NCWriteStream<T> {
         let (lock, cv) = &*self.q;
         // TODO: attach tags.
         lock.lock().unwrap().push_back(val);
+        #[cfg(feature = "verif")]
+        crate::verif::add_activity(1);
         cv.notify_all();
     }
 }
